@@ -1,47 +1,47 @@
 """C07-C09 share the session recorder (harness/comb) and the judge spec/seq/Session.tla"""
 import json
 import vlib
-from common import validate
 
 
-def sessions(ctx, mode, label, maxlen=3, keep=1.0, n=1000, sigkeys=("fam", "comb"), cfg="tv.cfg"):
-    tf = ctx.path("sessions-%s.ndjson" % label)
-    rc, o = ctx.run_vh(["scen", "-mode", mode, "-maxlen", str(maxlen), "-keep", str(keep), "-n", str(n), "-out", tf], timeout=1800)
-    reps = ctx.harness_report(o, "sessions " + label)
-    if rc != 0 or not reps:
-        raise vlib.Trouble("session recorder died (rc=%s):\n%s" % (rc, o[-3000:]))
-    ctx.extra.setdefault("sessions", {})[label] = reps[-1]["by_comb"]
-    total = reps[-1]["events"]
-    # TLC validates the whole file; on a rejection the rejected session is reported and validation
-    # continues behind it, so that one finding does not hide the rest (bounded number of rounds)
+def validate_records(ctx, sub, module, cfg, tf, label, cls, what="record"):
+    """TLC validates a file of independent records (one per line). On a rejection the record is
+    reported, the remaining records of the same class (same finding) are skipped and validation
+    continues behind it, so that one finding does not hide the others. cls(record) -> class key."""
     lines = open(tf).read().splitlines()
-    start = 0
-    rounds = 0
-    accepted = 0
-    skipped = 0
+    total = len(lines)
+    start = rounds = accepted = skipped = 0
     while start < len(lines) and rounds < 40:
         rounds += 1
         part = ctx.path("part-%s-%d.ndjson" % (label, rounds))
         open(part, "w").write("\n".join(lines[start:]) + "\n")
-        acc, r, hwm = ctx.tv("seq", "Session", cfg, part, timeout=3000)
+        acc, r, hwm = ctx.tv(sub, module, cfg, part, timeout=3000)
         if acc:
             accepted += len(lines) - start
             break
         k = hwm or 1
         bad = json.loads(lines[start + k - 1])
         accepted += k - 1
-        sig = {x: bad.get(x) for x in sigkeys}
-        sig["n0"] = 1 if bad.get("n") == 0 else 0
-        ctx.violation("%s: session rejected by Session.tla: %s" % (label, json.dumps(bad)[:700]), sig, {"session": bad})
-        # the remaining sessions of the same class (family, combinator) are the same finding: skip them
-        rest = [x for x in lines[start + k:] if not ('"fam":"%s","comb":"%s"' % (bad.get("fam"), bad.get("comb")) in x and ('"n":0,' in x) == (bad.get("n") == 0))]
+        c = cls(bad)
+        ctx.violation("%s: %s rejected by %s: %s" % (label, what, module, json.dumps(bad)[:700]), c, {what: bad})
+        rest = [x for x in lines[start + k:] if cls(json.loads(x)) != c]
         skipped += len(lines) - (start + k) - len(rest)
         lines = lines[:start + k] + rest
         start += k
     ctx.traces += accepted
     if skipped:
-        ctx.notes.append("%s: %d sessions of already-rejected classes skipped" % (label, skipped))
-    ctx.log("sessions %s: %d recorded, %d accepted, %d TLC rounds" % (label, total, accepted, rounds))
+        ctx.notes.append("%s: %d records of already-rejected classes skipped" % (label, skipped))
+    ctx.log("%s: %d recorded, %d accepted, %d TLC rounds" % (label, total, accepted, rounds))
     if lines:
-        ctx.sample({"session": json.loads(lines[len(lines) // 2])}, limit=8)
+        ctx.sample({what: json.loads(lines[len(lines) // 2])}, limit=8)
     return total
+
+
+def sessions(ctx, mode, label, maxlen=3, keep=1.0, n=1000, cfg="tv.cfg"):
+    tf = ctx.path("sessions-%s.ndjson" % label)
+    rc, o = ctx.run_vh(["scen", "-mode", mode, "-maxlen", str(maxlen), "-keep", str(keep), "-n", str(n), "-out", tf], timeout=1800)
+    reps = ctx.harness_report(o, "sessions " + label)
+    if rc != 0 or not reps:
+        raise vlib.Trouble("session recorder died (rc=%s):\n%s" % (rc, o[-3000:]))
+    ctx.extra.setdefault("sessions", {})[label] = reps[-1]["by_comb"]
+    return validate_records(ctx, "seq", "Session", cfg, tf, "sessions " + label,
+                            lambda b: {"fam": b.get("fam"), "comb": b.get("comb"), "n0": 1 if b.get("n") == 0 else 0}, what="session")
